@@ -51,6 +51,12 @@ def gen_charges(rng, shells):
             p = c + rng.normal(size=3) * 1.5
         classes.add("q:" + kind)
         pts.append([float(v) for v in p])
+    if n >= 2 and rng.random() < 0.2:
+        # two charges of different value on bit-identical coordinates (a core charge and its shell particle, a nucleus
+        # and a point charge of an embedding on the same site)
+        j, k = (int(x) for x in rng.permutation(n)[:2])
+        pts[k] = list(pts[j])
+        classes.add("q:same-site")
     q = np.exp(rng.uniform(np.log(0.1), np.log(100), size=n)) * rng.choice([-1.0, 1.0], size=n)
     return pts, [float(v) for v in q], sorted(classes)
 
